@@ -39,6 +39,11 @@ CHECKS = {
     text="~24k (quick) / ~380k (thorough) declarations (documented seeds, single-token mutations, random token sequences) go through the real parser with a monitor on the escaping exception class, the diagnostic text, the parser's position at return and a 5 s watchdog; ~2k / ~12k descriptions (every attribute x value, illegal combinations, must-reject inputs, wrong YAML kinds, misspelt keys, CLI misuse, and all valid corpus/generated descriptions) go through the full pipeline. Held = every rejection is a RuntimeError/SystemExit-style diagnostic that quotes the input, no accepted text leaves the parser before EOF or unbalanced, documented inputs are never rejected, must-reject inputs are never accepted.",
     note="Trusted: classification of diagnostic classes (RuntimeError, NotImplementedError, SystemExit, OSError family). Acceptance of arbitrary mutated text is only judged by EOF/balance/must-reject list, not by a reference C++ grammar (that is C09). Known findings listed in known_findings.json.",
     design="DESIGN.md §2 C17"),
+ "C11": dict(
+    technique="execute three compiled programs per generated library (C++ with the original enums, C with the generated headers, Fortran with the generated modules linked with the generated wrappers) and compare the printed enumerator values",
+    text="2000 (quick) / 20000 (thorough) enums over the accepted expression grammar (+ - * / parentheses, unary sign, literals incl. leading-zero octal, references to earlier members, adjacent signs), 1-6 members with random explicit/implicit masks, plain / enum class / enum struct at library, namespace and class scope are run through Shroud; g++, gcc and gfortran then evaluate the original and the generated constants and every member is compared.",
+    note="Trusted: gcc/g++/gfortran 12 constant evaluation; enumerators matched by position inside each emitted enum (names are C08's business). Values kept inside int, divisors non-zero.",
+    design="DESIGN.md §2 C11"),
 }
 
 NOT_APPLICABLE = []
